@@ -29,6 +29,8 @@ def corpus():
 
 
 ENGINES = [{"name": "pipe", "gen": gen, "corpus": corpus, "nontrivial": nontrivial, "classify": pipegen.classify, "shards": 12}]
+from props.e2e_common import e2e_engine
+ENGINES.append(e2e_engine("C02"))   # the same histories against a real pipeline over TCP/HTTP
 known_signature = known_signature_for({"K2"})
 LEVEL_TEXT = ("Theorems: a session-wide withdrawal (single and bulk) changes exactly the records of its ids and nothing else (frame, all RIB states); Peer Down "
               "emits exactly that peer's id, Termination exactly the up peers' ids; an ingress id answers one (parent, address, AS, RIB view) only; and the "
